@@ -238,6 +238,65 @@ func (in *instr) receiver(sel *ast.SelectorExpr) ast.Expr {
 	return &ast.UnaryExpr{Op: token.AND, X: x}
 }
 
+// ifaceReceiver: the interface value a sync.Locker method is called on (possibly through
+// embedded fields).
+func (in *instr) ifaceReceiver(sel *ast.SelectorExpr) ast.Expr {
+	info := in.pkg.TypesInfo
+	s := info.Selections[sel]
+	if s == nil {
+		return nil
+	}
+	x := sel.X
+	t := info.TypeOf(x)
+	path := s.Index()
+	for _, idx := range path[:len(path)-1] {
+		if p, ok := t.Underlying().(*types.Pointer); ok {
+			t = p.Elem()
+		}
+		st, ok := t.Underlying().(*types.Struct)
+		if !ok {
+			return nil
+		}
+		f := st.Field(idx)
+		x = &ast.SelectorExpr{X: x, Sel: ast.NewIdent(f.Name())}
+		t = f.Type()
+	}
+	return x
+}
+
+// methodValue turns a method value of a sync object (mu.Unlock used as a func value) into
+// a closure over the simulator operation. The receiver is evaluated when the closure runs.
+func (in *instr) methodValue(sel *ast.SelectorExpr, name string) ast.Expr {
+	sig, ok := methodValueSig[name]
+	if !ok {
+		return nil
+	}
+	recv := in.receiver(sel)
+	if strings.HasPrefix(name, "Locker") {
+		recv = in.ifaceReceiver(sel)
+	}
+	if recv == nil {
+		return nil
+	}
+	args := []ast.Expr{recv}
+	ft := &ast.FuncType{Params: &ast.FieldList{}}
+	if sig[0] != "" {
+		var pt ast.Expr = ast.NewIdent(sig[0])
+		if sig[0] == "func()" {
+			pt = &ast.FuncType{Params: &ast.FieldList{}}
+		}
+		ft.Params.List = []*ast.Field{{Names: []*ast.Ident{ast.NewIdent("simx")}, Type: pt}}
+		args = append(args, ast.NewIdent("simx"))
+	}
+	args = append(args, in.site(sel, strings.ToLower(name)))
+	var body ast.Stmt = &ast.ExprStmt{X: call(name, args...)}
+	if sig[1] != "" {
+		ft.Results = &ast.FieldList{List: []*ast.Field{{Type: ast.NewIdent(sig[1])}}}
+		body = &ast.ReturnStmt{Results: []ast.Expr{call(name, args...)}}
+	}
+	return &ast.FuncLit{Type: ft, Body: &ast.BlockStmt{List: []ast.Stmt{body}}}
+}
+
 var syncOps = map[string]string{
 	"(*sync.Mutex).Lock":       "MutexLock",
 	"(*sync.Mutex).Unlock":     "MutexUnlock",
@@ -250,6 +309,31 @@ var syncOps = map[string]string{
 	"(*sync.RWMutex).TryRLock": "RWTryRLock",
 	"(*sync.Pool).Get":         "PoolGet",
 	"(*sync.Pool).Put":         "PoolPut",
+	"(*sync.Cond).Wait":        "CondWait",
+	"(*sync.Cond).Signal":      "CondSignal",
+	"(*sync.Cond).Broadcast":   "CondBroadcast",
+	"(*sync.Once).Do":          "OnceDo",
+	"(sync.Locker).Lock":       "LockerLock",
+	"(sync.Locker).Unlock":     "LockerUnlock",
+	"(*sync.Map).Range":        "SyncMapRange",
+}
+
+// opsWithoutSite take no trailing site argument
+var opsWithoutSite = map[string]bool{"SyncMapRange": true}
+
+// methodValueSig: parameters / result of the closure that replaces a method value
+var methodValueSig = map[string][2]string{ // name -> {param type, result type}
+	"MutexLock": {"", ""}, "MutexUnlock": {"", ""}, "RWLock": {"", ""}, "RWUnlock": {"", ""}, "RWRLock": {"", ""}, "RWRUnlock": {"", ""},
+	"MutexTryLock": {"", "bool"}, "RWTryLock": {"", "bool"}, "RWTryRLock": {"", "bool"},
+	"PoolGet": {"", "any"}, "PoolPut": {"any", ""},
+	"CondWait": {"", ""}, "CondSignal": {"", ""}, "CondBroadcast": {"", ""},
+	"OnceDo": {"func()", ""}, "LockerLock": {"", ""}, "LockerUnlock": {"", ""},
+}
+
+var onceFuncs = map[string]string{
+	"sync.OnceFunc":   "OnceFunc",
+	"sync.OnceValue":  "OnceValue",
+	"sync.OnceValues": "OnceValues",
 }
 
 var blockingCalls = map[string]bool{
@@ -296,7 +380,16 @@ func (in *instr) run() bool {
 				if fn, ok := s.Obj().(*types.Func); ok {
 					if _, hit := syncOps[fn.FullName()]; hit {
 						if pc, ok := in.parent(0).(*ast.CallExpr); !ok || ast.Unparen(pc.Fun) != ast.Expr(n) {
-							die("%s: method value %s has no instrumentation rule", in.pos(n), fn.FullName())
+							if pp, ok := in.parent(0).(*ast.ParenExpr); ok {
+								if pc, ok := in.parent(1).(*ast.CallExpr); ok && ast.Unparen(pc.Fun) == ast.Expr(pp) {
+									return true
+								}
+							}
+							cl := in.methodValue(n, syncOps[fn.FullName()])
+							if cl == nil {
+								die("%s: method value %s has no instrumentation rule", in.pos(n), fn.FullName())
+							}
+							c.Replace(cl)
 						}
 					}
 				}
@@ -307,8 +400,22 @@ func (in *instr) run() bool {
 				return true
 			}
 			full := fn.FullName()
-			if strings.HasPrefix(full, "(*sync.Cond).") || full == "sync.NewCond" {
-				die("%s: sync.Cond has no instrumentation rule", in.pos(n))
+			if r, ok := onceFuncs[full]; ok && in.on("mutex") {
+				// sync.OnceFunc(f) -> simrt.OnceFunc(f) (explicit type arguments are kept)
+				in.site(n, "oncefunc")
+				switch f := ast.Unparen(n.Fun).(type) {
+				case *ast.SelectorExpr:
+					n.Fun = rt(r)
+				case *ast.IndexExpr:
+					f.X = rt(r)
+				case *ast.IndexListExpr:
+					f.X = rt(r)
+				}
+				return true
+			}
+			if (full == "time.AfterFunc" || full == "context.AfterFunc") && len(n.Args) == 2 && in.on("chan") {
+				n.Args[1] = call("TimerFunc", n.Args[1], in.site(n, "timerfunc"))
+				return true
 			}
 			if name, ok := syncOps[full]; ok {
 				isPool := strings.HasPrefix(name, "Pool")
@@ -320,11 +427,17 @@ func (in *instr) run() bool {
 					die("%s: cannot instrument %s", in.pos(n), full)
 				}
 				recv := in.receiver(sel)
+				if strings.HasPrefix(name, "Locker") {
+					recv = in.ifaceReceiver(sel)
+				}
 				if recv == nil {
 					die("%s: cannot resolve receiver of %s", in.pos(n), full)
 				}
 				args := append([]ast.Expr{recv}, n.Args...)
-				args = append(args, in.site(n, strings.ToLower(name)))
+				st := in.site(n, strings.ToLower(name))
+				if !opsWithoutSite[name] {
+					args = append(args, st)
+				}
 				c.Replace(call(name, args...))
 				return true
 			}
